@@ -1,7 +1,7 @@
 (** The input/output part of the section reader on the logical stream: the
     section header, the three packet kinds, the size table and the chunks of
     a data packet.  The decoding of a data packet is abstracted here by the
-    results of [bsr_append], [min_queue_size] and [parse_streams]. *)
+    results of [bsr_append] and [parse_streams]. *)
 From E57 Require Import Base.Prelude Spec.PageSpec Model.PagedReader Model.Prog Model.BsRead
   Model.Record Model.QueueReader Spec.BitSpec Spec.FormatSpec.
 From E57 Require Import Proofs.BitLemmas Proofs.QueueReaderLemmas.
@@ -294,16 +294,16 @@ Proof.
   eapply runs_bind; [exact Hr3|]. apply runs_ret.
 Qed.
 
-Lemma advance_data log off q chunks rest ss1 m ss2 qs2 :
+Lemma advance_data log off q chunks rest ss1 ss2 qs2 :
   off mod 4 = 0 -> packet_ok (length (q_proto q)) (SData chunks) = true ->
   cur log off (encode_packet (SData chunks) ++ rest) ->
   Forall3 (fun s c s1 => bsr_append s c = Ok s1) (q_streams q) chunks ss1 ->
-  min_queue_size (q_proto q) ss1 (q_queues q) None = Ok (Some m) ->
-  parse_streams (q_proto q) ss1 (q_queues q) m = Ok (ss2, qs2) ->
+  has_sized (q_proto q) = true ->
+  parse_streams (q_proto q) ss1 (q_queues q) = Ok (ss2, qs2) ->
   runs log (qr_advance q) off (off + data_packet_len chunks) (mkQr (q_proto q) ss2 qs2) /\
   cur log (off + data_packet_len chunks) rest.
 Proof.
-  intros Hoff Hok Hc HF Hmq Hps.
+  intros Hoff Hok Hc HF Hhs Hps.
   apply packet_ok_data in Hok as (Hn & H0 & Hdl & Hlt & _).
   destruct (hdr_data_runs _ _ _ _ H0 Hdl Hc) as (flag & Hr1 & Hc1).
   destruct (read_sizes_runs _ _ _ _ Hlt Hc1) as [Hr2 Hc2].
@@ -324,7 +324,7 @@ Proof.
   eapply runs_bind.
   - eapply runs_bind; [rewrite <- Hn; exact Hr2|].
     eapply runs_bind; [exact Hr3|].
-    eapply runs_bind; [apply runs_rlift; exact Hmq|]. cbv iota.
+    rewrite Hhs. cbn [negb].
     eapply runs_bind; [apply runs_rlift; exact Hps|]. cbv iota. apply runs_ret.
   - eapply runs_bind; [exact Hr4|]. apply runs_ret.
 Qed.
@@ -369,9 +369,12 @@ Proof.
   rewrite H2. change (0 =? 0) with true. cbn [negb]. apply runs_ret.
 Qed.
 
-Lemma raw_new_runs log pre lay post n records proto :
+(** [raw_new] on a section inside the stream.  The seek to the data offset
+    (only done when there are records) needs one byte after the section header:
+    a packet or a byte of [post]. *)
+Lemma raw_new_runs_gen log pre lay post n records proto :
   log = pre ++ encode_section (phys_of_log (len pre + 32)) lay ++ post ->
-  post <> [] ->
+  records = 0 \/ post <> [] ->
   Forall (fun p => packet_ok n p = true) lay ->
   len log mod 1020 = 0 -> phys_of_log (len log) < 2 ^ 64 ->
   runs log (raw_new (phys_of_log (len pre)) records proto) 0 (len pre + 32)
@@ -387,8 +390,9 @@ Proof.
   rewrite !app_assoc in Hc0, HL. rewrite <- !(app_assoc _ _ (le_bytes 8 0)) in Hc0, HL.
   rewrite <- !(app_assoc _ _ (le_bytes 8 (phys_of_log (len pre + 32)) ++ le_bytes 8 0)) in Hc0, HL.
   rewrite <- (app_assoc _ (section_body lay) post) in Hc0, HL.
-  assert (Hpl : 0 < len post).
-  { destruct post; [congruence|]. rewrite qlen_cons. lia. }
+  assert (Hpl : records = 0 \/ 0 < len post).
+  { destruct Hpost as [Hpost|Hpost]; [left; exact Hpost|right].
+    destruct post; [congruence|]. rewrite qlen_cons. lia. }
   rewrite qlen_app in HL. rewrite (qlen_app (section_body lay)) in HL.
   rewrite !qlen_app, !qlen_le_bytes in HL. change (len [1; 0; 0; 0; 0; 0; 0; 0]) with 8 in HL.
   assert (Hlt : len log < 2 ^ 64).
@@ -402,5 +406,19 @@ Proof.
   eapply runs_bind; [|apply runs_ret].
   eapply runs_bind; [apply seek_runs; [exact Hmod|lia]|].
   eapply runs_bind; [exact Hr1|]. cbn [cv_data_offset].
-  eapply runs_bind; [apply seek_runs; [exact Hmod|lia]|]. apply runs_ret.
+  destruct (0 <? records) eqn:E.
+  - eapply runs_bind; [apply seek_runs; [exact Hmod|lia]|]. apply runs_ret.
+  - eapply runs_bind; [apply runs_ret|]. apply runs_ret.
+Qed.
+
+Lemma raw_new_runs log pre lay post n records proto :
+  log = pre ++ encode_section (phys_of_log (len pre + 32)) lay ++ post ->
+  post <> [] ->
+  Forall (fun p => packet_ok n p = true) lay ->
+  len log mod 1020 = 0 -> phys_of_log (len log) < 2 ^ 64 ->
+  runs log (raw_new (phys_of_log (len pre)) records proto) 0 (len pre + 32)
+       (mkRaw (mkQr proto (map (fun _ => bsr_new) proto) (map (fun _ => []) proto)) records 0) /\
+  cur log (len pre + 32) (section_body lay ++ post).
+Proof.
+  intros Hlog Hpost. apply raw_new_runs_gen; [exact Hlog|right; exact Hpost].
 Qed.
